@@ -21,6 +21,13 @@ theorem index_single (c : Char) (s : Str) :
   simp only [Imp.index, indexSub_single, Str.index]
   rfl
 
+/-- `strings.Contains(s, string(c))` is `strings.Index(s, string(c)) != -1` -/
+theorem containsSub_single (c : Char) (s : Str) : Str.containsSub [c] s = (Str.index c s).isSome := by
+  simp only [Str.containsSub, indexSub_single, Str.index]
+
+/-- `strings.Trim` is `strings.TrimRight` of `strings.TrimLeft` (one-character cutset) -/
+theorem trim_eq (c : Char) (s : Str) : Str.trim c s = Str.trimRight c (Str.trimLeft c s) := rfl
+
 theorem idxOf?_lt {c : Char} {s : Str} {k : Nat} (h : s.idxOf? c = some k) : k < s.length := by
   induction s generalizing k with
   | nil => simp at h
